@@ -12,6 +12,9 @@ CLAIMED = {
  "C02": ("reference model by construction: generated ASTs printed by an independent printer, parse compared field by field (Hypothesis)",
          "Generated-input search against a reference model: the AST is ground truth because the string is produced from it with a descriptor written exactly like a leaf atom; for every token the parsed descriptors (symbol, id, weight, list, attachment atom, bond order, numbering) and the atoms/internal bonds of the public SMILES fragment are compared with the AST, for objects the terminals, token lists, distribution family/parameters, for molecules/systems element kinds, order and mixture. Every legal descriptor placement is generated and its frequency reported. Sampling, not exhaustive.",
          "Trusted: gbsv/ast.py printer (itself validated against RDKit by replacing descriptors with dummy atoms), RDKit SMILES parser for the fragment.", "DESIGN.md §2 C02"),
+ "C15": ("breaking operators on generated valid instances with a must-be-rejected oracle (Hypothesis) + byte-level mutation and coverage-guided fuzzing (atheris/libFuzzer) under a deterministic step budget",
+         "Generated-input search: 17 breaking operators, each producing an invalid string by construction, are applied at generated positions to valid well-posed molecules of every archetype; the broken string must end in an error at parse or at generate (non-generable for negative weights / missing distribution) - a produced molecule is the violation. Termination of the five constructors is explored with Hypothesis byte mutations of docs/tests strings and two atheris campaigns (seeded and empty corpus) under a line-event budget.",
+         "Trusted: each operator's claim that its output is invalid (stated per operator in gbsv/checks/c15.py); termination is bounded liveness: 20000+2000*len line events inside gbigsmiles.", "DESIGN.md §2 C15"),
  "C03": ("exhaustive enumeration of the finite descriptor-pair universe against a truth table (three construction routes)",
          "Every ordered pair of the finite universe named by the property is evaluated against a truth table written from the statement, through the constructor, through the token/terminal parser and through the candidate filter; symmetry and weight-independence are checked on the same pairs. Exhaustive over that universe, so for this universe the check decides the property.",
          "Trusted: the truth table in gbsv/checks/c03.py (ids compared numerically, none and '-' are single bonds).", "DESIGN.md §2 C03"),
